@@ -170,6 +170,9 @@ type convWorld struct {
 	ever   [2]map[[2]uint32]bool
 	swaps  [2]int
 	tunOut int
+	marks  []string
+	markJ  [][2]int
+	strict int // log length at a kind-2 mark (-1: none)
 }
 
 func (w *convWorld) close() {
@@ -369,6 +372,9 @@ func (w *convWorld) do(e convEv) {
 	if delivered != nil && delivered.code == 3 && delivered.nDel == 0 {
 		// a data packet delivered for the first time: if the receiver holds the other end (indexes swapped) of the
 		// tunnel it was sent on, it must come out of the tun
+		if w.strict >= 0 && int(e.arg) >= w.strict && len(outs) != 1 {
+			w.fails = append(w.fails, fmt.Sprintf("step %d: data sent after the quiet period was not delivered to the tun", len(w.steps)))
+		}
 		for _, t := range pre[act].Tunnels {
 			if uint64(t.Local) == delivered.hidx && uint64(t.Remote) == delivered.sl && len(outs) != 1 {
 				w.fails = append(w.fails, fmt.Sprintf("step %d: data for held tunnel (%d,%d) was not delivered to the tun", len(w.steps), t.Local, t.Remote))
@@ -384,6 +390,110 @@ func (w *convWorld) do(e convEv) {
 }
 
 func (w *convWorld) dump(i int) nebula.VerifConvergeDump { return w.nodes[i].Dump(w.vpn[1-i]) }
+
+// mark: the clause that must hold here, after quiet loss-free check intervals that followed a matched state.
+// kind 1: both nodes hold a tunnel; kind 2: and their primaries are each other's ends, and data sent from now on
+// is delivered.
+func (w *convWorld) mark(kind int) {
+	a, b := w.dump(0), w.dump(1)
+	if len(a.Tunnels) == 0 || len(b.Tunnels) == 0 {
+		w.fails = append(w.fails, fmt.Sprintf("step %d: after quiet intervals node A holds %d tunnel(s), node B holds %d", len(w.steps), len(a.Tunnels), len(b.Tunnels)))
+	} else if kind == 2 && (a.Tunnels[0].Local != b.Tunnels[0].Remote || a.Tunnels[0].Remote != b.Tunnels[0].Local) {
+		w.fails = append(w.fails, fmt.Sprintf("step %d: after quiet intervals the two primaries are not the ends of one tunnel", len(w.steps)))
+	}
+	if kind == 2 {
+		w.strict = len(w.log)
+	}
+	w.marks = append(w.marks, hx.Tuple(hx.N(uint64(len(w.steps))), hx.N(uint64(kind))))
+	w.markJ = append(w.markJ, [2]int{len(w.steps), kind})
+}
+
+// intervals runs both clocks for d in 500 ms steps, delivering everything that is sent (no loss); with talk[i] node
+// i's application sends one packet per step.
+func (w *convWorld) intervals(d time.Duration, talk [2]bool) {
+	for t := time.Duration(0); t < d; t += 500 * time.Millisecond {
+		for i := 0; i < 2; i++ {
+			if talk[i] {
+				w.data(i)
+			}
+		}
+		w.deliverAll(200)
+		w.tick(0, 500*time.Millisecond)
+		w.tick(1, 500*time.Millisecond)
+		w.deliverAll(200)
+	}
+}
+
+// staleFlagFamily: two simultaneous handshakes complete; the responder tunnel of the lower-address node L sees no
+// inbound traffic during its first check interval because the peer's first `lose` data packets are dropped; then
+// the peer's traffic arrives and L swaps to that tunnel; the peer falls silent, L sends `lAfter` more packets; then
+// `quiet` silent seconds; then traffic both ways. (A tunnel flag left over from the silent first interval must not kill the promoted tunnel.)
+func (w *convWorld) staleFlagFamily(lose int, lTalks bool, lAfter int, talk, quiet time.Duration, dupEvery int) {
+	l := 0
+	if w.vpn[1].Compare(w.vpn[0]) < 0 {
+		l = 1
+	}
+	p := 1 - l
+	w.do(convEv{kind: "start", n: l})
+	w.do(convEv{kind: "start", n: p})
+	w.do(convEv{kind: "hsout", n: l})
+	w.do(convEv{kind: "hsout", n: p})
+	w.deliverAll(50) // L: own initiation primary, responder tunnel second; P the other way round
+	for k := 0; k < lose; k++ {
+		w.data(p)
+		w.log[len(w.log)-1].lost = true
+	}
+	if lTalks {
+		w.data(l)
+	}
+	w.deliverAll(50)
+	// first check interval (the wheel starts with the first advance, so the first checks come 2.5 s in): nothing
+	// reaches L's responder tunnel before its check
+	w.intervals(3*time.Second, [2]bool{})
+	// the peer's traffic arrives (and L's own, if it talks) until L promotes its responder tunnel - or for `talk`
+	resp := uint32(0)
+	for _, tn := range w.dump(l).Tunnels {
+		if !tn.Init {
+			resp = tn.Local
+		}
+	}
+	swapped := false
+	for t := time.Duration(0); t < talk && !swapped; t += 500 * time.Millisecond {
+		w.data(p)
+		if lTalks {
+			w.data(l)
+		}
+		w.deliverAll(200)
+		before := w.swaps[l]
+		w.tick(l, 500*time.Millisecond)
+		if d := w.dump(l); w.swaps[l] > before && len(d.Tunnels) > 0 && d.Tunnels[0].Local == resp {
+			// L has just promoted its responder tunnel. The peer falls silent at once; L still sends a little on its
+			// new primary before the peer's own check comes (so the peer sees traffic and does not probe); then
+			// nobody sends: the promoted tunnel's next check finds outbound traffic and nothing inbound.
+			swapped = true
+			for k := 0; k < lAfter; k++ {
+				w.data(l)
+			}
+			w.deliverAll(200)
+		}
+		w.tick(p, 500*time.Millisecond)
+		w.deliverAll(200)
+	}
+	if dupEvery > 0 {
+		for k := 0; k < len(w.log); k += dupEvery {
+			// duplicates of data and test packets only: a replayed stage-1 packet may legitimately create a tunnel
+			// at a responder that has forgotten the first one (C10 territory), which voids the premise of the mark
+			if w.log[k].nDel > 0 && w.log[k].code >= 3 && w.log[k].code <= 5 {
+				w.do(convEv{kind: "deliver", arg: uint64(k)})
+			}
+		}
+	}
+	w.intervals(quiet, [2]bool{}) // silence
+	w.mark(2)
+	w.data(0)
+	w.data(1)
+	w.deliverAll(50)
+}
 
 // deliverAll delivers every packet that is neither lost nor delivered yet (and what those deliveries emit).
 func (w *convWorld) deliverAll(limit int) {
@@ -475,7 +585,7 @@ func (w *convWorld) converged() bool {
 }
 
 func convNewWorld(c *hx.Ctx, ca *convCA, retries int) *convWorld {
-	w := &convWorld{}
+	w := &convWorld{strict: -1}
 	w.clk[0] = time.Now()
 	w.clk[1] = w.clk[0]
 	// two distinct overlay addresses in 10.128.0.0/16, either may be the smaller one
@@ -615,6 +725,18 @@ func runConvergeNet(c *hx.Ctx) {
 					}
 				}
 			}
+		case i == 4:
+			kind = "scripted-stale-flag-after-swap"
+			w.staleFlagFamily(1, false, 1, 8*time.Second, 3*time.Second, 0)
+			settle = true
+		case i == 5:
+			kind = "scripted-stale-flag-after-swap-silent"
+			w.staleFlagFamily(2, true, 2, 8*time.Second, 6*time.Second, 0)
+			settle = true
+		case i%5 == 1:
+			kind = "random-stale-flag-after-swap"
+			w.staleFlagFamily(1+c.Intn(2), c.Chance(0.5), c.Intn(3), time.Duration(6+c.Intn(6))*time.Second, time.Duration(2+c.Intn(10))*time.Second, c.Intn(3)*7)
+			settle = c.Chance(0.7)
 		default:
 			mode := c.Intn(3)
 			switch mode {
@@ -665,10 +787,10 @@ func runConvergeNet(c *hx.Ctx) {
 			nConv++
 		}
 		totalSwaps += w.swaps[0] + w.swaps[1]
-		lit := hx.App("Converge_corr.CSched", convAddrLit(w.vpn[0]), convAddrLit(w.vpn[1]), hx.N(uint64(retries)), hx.Bool(settle), hx.List(w.steps))
+		lit := hx.App("Converge_corr.CSched", convAddrLit(w.vpn[0]), convAddrLit(w.vpn[1]), hx.N(uint64(retries)), hx.Bool(settle), hx.List(w.marks), hx.List(w.steps))
 		idx := cw.Total()
 		cw.Add(lit, kind, w.tunOut > 0 || w.swaps[0]+w.swaps[1] > 0,
-			map[string]any{"addr_a": w.vpn[0].String(), "addr_b": w.vpn[1].String(), "retries": retries, "settle": settle, "steps": w.descs, "harness_failures": w.fails})
+			map[string]any{"addr_a": w.vpn[0].String(), "addr_b": w.vpn[1].String(), "retries": retries, "settle": settle, "marks": w.markJ, "steps": w.descs, "harness_failures": w.fails})
 		if len(w.fails) > 0 {
 			failures = append(failures, map[string]any{"i": idx, "code": 2, "what": w.fails})
 		}
